@@ -188,6 +188,7 @@ def execute(plan):
     m = Model()
     mutations = 0
     last_mut = None
+    held_out = []
     reads_since = []
 
     def viol(inv, step, detail, **sig):
@@ -444,6 +445,19 @@ def execute(plan):
                                 break
                         if res["status"] != "ok":
                             break
+                    # what earlier transmissions reported (their noise, their received blocks) belongs to the caller:
+                    # a later transmission must not rewrite it, or "received = H x + reported noise" stops holding for them
+                    for (st0, what, obj, cp) in held_out:
+                        if np.shape(obj) != cp.shape or not np.array_equal(np.asarray(obj), cp):
+                            viol("received", step, "the %s reported for the transmission of step %d was rewritten by this transmission" % (what, st0), op="held_" + what)
+                            break
+                    if res["status"] != "ok":
+                        break
+                    if n is not None:
+                        held_out.append((step, "last_noise", n, np.array(n, copy=True)))
+                    if y is not None:
+                        held_out.append((step, "received_data", y, np.array(y, copy=True)))
+                    del held_out[:-4]
                     bump(res["probes"], "corrupt_with_noise" if n is not None else "corrupt_without_noise")
                     if m.W is not None:
                         bump(res["probes"], "corrupt_with_post_filter")
